@@ -769,7 +769,14 @@ class Summarizer:
                 if isinstance(add, ListV):
                     st.env[n.func.value.id] = self.binop(ast.Add(), cur, add)
                     return Sym(("none",))
-        kwargs = {k.arg: self.expr(k.value, st) for k in n.keywords}
+        kwargs = {}
+        for k in n.keywords:
+            val = self.expr(k.value, st)
+            if k.arg is None and isinstance(val, DictV) and all(isinstance(kk, str) for kk, _ in val.items):
+                for kk, vv in val.items:          # f(**{"a": x, "b": y})  ==  f(a=x, b=y)
+                    kwargs[kk] = vv
+            else:
+                kwargs[k.arg] = val
         v = self.h.call(self, n, fname, args, kwargs, st) if hasattr(self.h, "call") else None
         if v is not None:
             return v
